@@ -138,6 +138,8 @@ class Ctx:
         self.ufs = {}
         self.samples = []
         self.path_data = {}  # scratch area cleared at each path start
+        self.diversify_models = True
+        self._violation_constraint = None
 
     # ---- solver helpers ------------------------------------------------------------------
     def _check(self, *extra):
@@ -316,7 +318,12 @@ class Ctx:
         if z3.is_true(t):
             return True
         if self._check(z3.Not(t)):
-            self._violation(label, self._last_model, detail)
+            m = self._last_model
+            self._violation_constraint = z3.Not(t)
+            try:
+                self._violation(label, m, detail)
+            finally:
+                self._violation_constraint = None
             return False
         return True
 
@@ -333,9 +340,59 @@ class Ctx:
         model = None
         if witness is not None and self._check(witness):
             model = self._last_model       # inputs on which the defect actually shows
-        self._violation(label, model or self.get_model(), detail)
+        self._violation_constraint = witness
+        try:
+            self._violation(label, model or self.get_model(), detail)
+        finally:
+            self._violation_constraint = None
+
+    def diversify(self, base_constraint=None):
+        """Best effort: a model of the current path (and base_constraint) in which the symbolic input bytes take distinct, non-zero
+        pseudo-random values wherever the path allows it - structural counterexamples with all-zero data often do not show on the
+        real program (equal bytes hide a reordering, a zero tick hides a wrong divisor)."""
+        import hashlib
+        self.solver.push()
+        try:
+            if base_constraint is not None:
+                self.solver.add(base_constraint)
+            if not self._check():
+                return None
+            best = self._last_model
+            for name, (kind, term) in self.inputs.items():
+                cons = []
+                if kind == "bytes":
+                    for i, e in enumerate(term):
+                        if not isinstance(e, int):
+                            v = hashlib.sha256(("%s/%d" % (name, i)).encode()).digest()[0] or 0x5a
+                            cons.append(e == v)
+                elif kind == "int" and term.size() >= 8:
+                    v = int.from_bytes(hashlib.sha256(name.encode()).digest()[:8], "big") % (1 << (term.size() - 1)) or 1
+                    cons.append(term == v)
+                if not cons:
+                    continue
+                self.solver.push()
+                self.solver.add(*cons)
+                if self._check():
+                    best = self._last_model
+                    # keep the constraint for the following inputs
+                    self.solver.pop()
+                    self.solver.add(*cons)
+                else:
+                    self.solver.pop()
+            return best
+        except SolverUnknown:
+            return None
+        finally:
+            self.solver.pop()
 
     def _violation(self, label, model, detail):
+        if self.diversify_models:
+            try:
+                better = self.diversify(self._violation_constraint)
+            except SxControl:
+                better = None
+            if better is not None:
+                model = better
         inputs = self.concretise_inputs(model)
         if callable(detail):
             try:
